@@ -35,6 +35,7 @@ WHAT STAYS A PARAMETER / ABSTRACT
 import Uquic.Proofs.H3MessageResp
 import Uquic.Proofs.H3MessageFields
 import Uquic.Proofs.H3MessageBody
+import Uquic.Proofs.H3MessageToy
 
 namespace Uquic.Props.C18Compose
 open Uquic.Model.H3 Uquic.Spec.H3Wire Uquic.Proofs.H3 Uquic.Proofs.H3Msg Uquic.Props.C18
@@ -297,5 +298,141 @@ theorem body_length_consistent (mh : Nat) (ws : List (List Nat)) (tsec : Option 
     rcases p3 e he with ⟨_, e2⟩ | ⟨e1, _, e3⟩
     · omega
     · exact ⟨e1, e3⟩
+
+/-! ### non-vacuity: concrete messages through the composed pipeline (QPACK := the length-prefixed toy codec) -/
+
+section Examples
+open Uquic.Model.H3.Fields (B Req Resp)
+
+/-- a POST with a repeated header (X-Tag: one, two), a cookie pair, a declared length of 6, a body written
+    in 3 chunks and one trailer -/
+def rqMsg : ReqMsg :=
+  { w := { method := B "POST", proto := B "HTTP/1.1", puny := some (B "example.com"), reqURI := B "/a?b=c",
+           scheme := B "https",
+           headers := [(B "X-Tag", [B "one", B "two"]), (B "Cookie", [B "a=1", B "b=2"])],
+           trailerKeys := [B "X-Checksum"], contentLength := 6, gzip := false },
+    chunks := [[1, 2], [3], [4, 5, 6]],
+    trailers := [(B "X-Checksum", [B "abc"])] }
+def rqUA : List Nat := B "ua"
+/-- what `encodeHeaders` hands to the QPACK encoder -/
+def rqFields : List (List Nat × List Nat) :=
+  [(B ":authority", B "example.com"), (B ":method", B "POST"), (B ":path", B "/a?b=c"), (B ":scheme", B "https"),
+   (B "trailer", B "X-Checksum"), (B "x-tag", B "one"), (B "x-tag", B "two"), (B "cookie", B "a=1"), (B "cookie", B "b=2"),
+   (B "content-length", B "6"), (B "user-agent", B "ua")]
+def rqWire : List Nat := requestWire toyQ rqFields rqMsg
+/-- the request stream delivered in two chunks that cut the HEADERS frame -/
+def rqCells : List (Nat × Bool) := markChunk (rqWire.take 40) ++ markChunk (rqWire.drop 40)
+/-- what the handler must see -/
+def rqExpected : Req :=
+  { method := B "POST", proto := B "HTTP/3.0", host := B "example.com", requestURI := B "/a?b=c", urlFromPath := true,
+    contentLength := 6,
+    headers := [(B "X-Tag", B "one"), (B "X-Tag", B "two"), (B "User-Agent", B "ua"), (B "Content-Length", B "6"),
+      (B "Cookie", B "a=1; b=2")],
+    trailer := some [B "X-Checksum"] }
+
+set_option maxRecDepth 100000 in
+/-- the hypotheses of `request_message_preserved` are satisfiable by that request: the theorem applies -/
+example (ns : List Nat) :
+    ∃ cells', serverHead toyQ (fun _ => true) (fun _ => true) 1000 (pstateOf rqCells) =
+        (pstateOf cells', .ok (expectedReq rqUA rqMsg.w (B "example.com"))) ∧
+      BodyPreserved toyQ (fun _ => true) 1000 (recvBody 1000 cells' (expectedReq rqUA rqMsg.w (B "example.com")).contentLength)
+        cells'.length rqMsg.chunks.flatten rqMsg.trailers ns :=
+  request_message_preserved toyQ toyQ_roundTrip (fun _ => true) (fun _ => true) rqUA rqMsg rqFields (B "example.com")
+    ⟨by decide, by decide, by decide, by decide, by decide, by decide, by decide⟩ (by decide)
+    (by unfold ValidTrailers; decide) (by decide) rfl (by decide) rfl (by decide) 1000 (by decide)
+    ⟨by decide, by decide⟩
+    (by
+      intro tf h
+      have h1 : writeTrailers rqMsg.trailers = some [(B "x-checksum", B "abc")] := by decide
+      rw [h1] at h; cases h
+      exact ⟨by decide, by decide⟩)
+    (by decide) rqCells (by decide) ns
+
+set_option maxRecDepth 100000 in
+/-- … and computed: the handler sees the method, host, URI, the repeated X-Tag values in order, the joined
+    cookie, the normalised Content-Length and the announced trailer; -/
+example : expectedReq rqUA rqMsg.w (B "example.com") = rqExpected ∧
+    (serverHead toyQ (fun _ => true) (fun _ => true) 1000 (pstateOf rqCells)).2 = .ok rqExpected := by decide
+
+/-- what is left on the stream after the head -/
+def rqRest : List (Nat × Bool) := (serverHead toyQ (fun _ => true) (fun _ => true) 1000 (pstateOf rqCells)).1.u.cells
+
+set_option maxRecDepth 100000 in
+/-- … reads of sizes 4, 0, 1, 7, … return the six body bytes and a clean EOF, and `req.Trailer` is then
+    X-Checksum: abc -/
+example : ((recvBody 1000 rqRest 6).readMany [4, 0, 1, 7, 7, 7]).2 = ([1, 2, 3, 4, 5, 6], some .eof) ∧
+    recvTrailers toyQ (fun _ => true) 1000 ((recvBody 1000 rqRest 6).readMany [4, 0, 1, 7, 7, 7]).1.str.m =
+      some (.ok [(B "X-Checksum", B "abc")]) := by decide
+
+/-- a 200 response streamed by a handler that flushes first and then writes "Hi", "", "!!!!!" -/
+def rsW : RW := (({} : RW).WriteHeader 200).getD {}
+def rsOps : List HOp := [.flush, .write [72, 105], .write [], .write (List.replicate 5 33)]
+def rsFin : RW := (rsOps.foldl applyOp rsW).finish
+/-- header map: a repeated Set-Cookie, a connection-specific field the writer drops, a trailer announcement -/
+def rsHdr : List (List Nat × List (List Nat)) :=
+  [(B "Content-Type", [B "text/plain"]), (B "Set-Cookie", [B "a=1", B "b=2"]), (B "Connection", [B "close"]),
+   (B "Trailer", [B "X-T"])]
+def rsCells : List (Nat × Bool) :=
+  markChunk ((responseWire toyQ rsHdr [] rsFin).take 7) ++ markChunk ((responseWire toyQ rsHdr [] rsFin).drop 7)
+
+theorem rsW_ready : Ready rsW :=
+  ready_established {} 200 rfl rfl rfl rfl rfl rfl rfl rfl rfl rfl (by decide) (by decide)
+
+set_option maxRecDepth 100000 in
+/-- the hypotheses of `response_message_preserved` (body allowed) are satisfiable: the theorem applies -/
+example (ns : List Nat) :
+    ∃ cells', clientHead toyQ (fun _ => true) 1000 (pstateOf rsCells) =
+        (pstateOf cells', .ok (expectedResp (rsFin.status : Int) rsHdr (B "0"))) ∧
+      BodyPreserved toyQ (fun _ => true) 1000
+        (recvBody 1000 cells' (expectedResp (rsFin.status : Int) rsHdr (B "0")).contentLength) cells'.length
+        (payloads rsOps).flatten [] ns := by
+  have hst : rsFin.status = 200 := by decide
+  refine response_message_preserved toyQ toyQ_roundTrip (fun _ => true) rsW rsFin rsOps rfl _
+    (Or.inl ⟨rsW_ready, Or.inl (by decide), by decide, rfl⟩) rsHdr [] (B "0") ?_ (by unfold ValidTrailers; decide)
+    (by decide) (by decide) 1000 (by decide) ?_ (by intro tf h; cases h) rsCells (by decide) ns
+  · rw [hst]; exact ⟨by decide, by decide, by decide, by decide⟩
+  · rw [hst]; exact ⟨by decide, by decide⟩
+
+set_option maxRecDepth 100000 in
+/-- … and computed: one HEADERS record, status 200, DATA "Hi" and DATA "!!!!!" on the wire (the empty Write
+    writes nothing); the client sees both Set-Cookie values in order, no Connection field, the announced
+    trailer key, and no declared length -/
+example : hdrCount rsFin.str.writes = 1 ∧ rsFin.status = 200 ∧
+    sentBytes rsFin.str = [0, 2, 72, 105, 0, 5, 33, 33, 33, 33, 33] ∧
+    (clientHead toyQ (fun _ => true) 1000 (pstateOf rsCells)).2 =
+      .ok { status := 200, contentLength := -1,
+            headers := [(B "Content-Type", B "text/plain"), (B "Set-Cookie", B "a=1"), (B "Set-Cookie", B "b=2")],
+            trailer := some [B "X-T"] } := by decide
+
+/-- the suppressed case: the same script answering a HEAD request -/
+def hdFin : RW := (rsOps.foldl applyOp { isHead := true }).finish
+
+set_option maxRecDepth 100000 in
+/-- the hypotheses of `response_message_preserved` (no body may be sent) are satisfiable, with `body = []`
+    although the handler wrote 7 bytes -/
+example (ns : List Nat) :
+    ∃ cells', clientHead toyQ (fun _ => true) 1000 (pstateOf (markChunk (responseWire toyQ rsHdr [] hdFin))) =
+        (pstateOf cells', .ok (expectedResp (hdFin.status : Int) rsHdr (B "0"))) ∧
+      BodyPreserved toyQ (fun _ => true) 1000
+        (recvBody 1000 cells' (expectedResp (hdFin.status : Int) rsHdr (B "0")).contentLength) cells'.length [] [] ns := by
+  have hst : hdFin.status = 200 := by decide
+  refine response_message_preserved toyQ toyQ_roundTrip (fun _ => true) { isHead := true } hdFin rsOps rfl []
+    (Or.inr ⟨⟨rfl, Or.inl rfl⟩, rfl, rfl⟩) rsHdr [] (B "0") ?_ (by unfold ValidTrailers; decide)
+    (by decide) (by decide) 1000 (by decide) ?_ (by intro tf h; cases h) _ (by decide) ns
+  · rw [hst]; exact ⟨by decide, by decide, by decide, by decide⟩
+  · rw [hst]; exact ⟨by decide, by decide⟩
+
+/-- `body_length_consistent`: "ab" ‖ "c" ‖ trailers, delivered byte by byte -/
+def blCells : List (Nat × Bool) := (encFrames (bodyFrames [[97, 98], [99]] (some [9, 9]))).map fun b => (b, true)
+
+set_option maxRecDepth 100000 in
+/-- its hypotheses are satisfiable, and computed: declared 3 = written 3 → the bytes and a clean EOF;
+    declared 2 → two bytes and errTooMuchData; declared 5 → the three bytes and a clean EOF (known finding) -/
+example : blCells.map (·.1) = encFrames (bodyFrames [[97, 98], [99]] (some [9, 9])) ∧
+    ((bodyOf 100 blCells 3).readMany (List.replicate 12 5)).2 = ([97, 98, 99], some .eof) ∧
+    ((bodyOf 100 blCells 2).readMany (List.replicate 12 5)).2 = ([97, 98], some .tooMuchData) ∧
+    ((bodyOf 100 blCells 5).readMany (List.replicate 12 5)).2 = ([97, 98, 99], some .eof) := by decide
+
+end Examples
 
 end Uquic.Props.C18Compose
